@@ -1602,3 +1602,28 @@ from .lib_obj import *     # noqa  (repository classes, with/try, comprehensions
 def sp_fstr(ex, st, args, kwargs, node):
     """fstr(x): the text Python prints for the float x (spec language; uninterpreted)"""
     return to_str(ex, st, to_real(st.get(args[0])))
+
+
+@builtin("uf_int")
+def sp_uf_int(ex, st, args, kwargs, node):
+    """uf_int('name', a, ...): application of the uninterpreted function name: Int^n -> Int (spec language; used for
+    ghost witnesses in assumed contracts, e.g. the position of a yielded row in its source table)"""
+    name = st.get(args[0])
+    if not isinstance(name, str):
+        raise SpecError("uf_int needs a literal name")
+    zs = [to_z3(st.get(a)) for a in args[1:]]
+    f = ex.ctx.uf("ghost_" + name, *([I] * len(zs) + [I]))
+    return f(*zs)
+
+
+@builtin("uf_bool")
+def sp_uf_bool(ex, st, args, kwargs, node):
+    """uf_bool('name', a, ...): an uninterpreted predicate over Ints (spec language).  Writing a clause as
+    `forall x: mark(x) and P(x) -> Q(x)` for an uninterpreted `mark` says the same as without it (it must hold for
+    every interpretation, the always-true one included) and gives the quantifier a term to be instantiated on."""
+    name = st.get(args[0])
+    if not isinstance(name, str):
+        raise SpecError("uf_bool needs a literal name")
+    zs = [to_z3(st.get(a)) for a in args[1:]]
+    f = ex.ctx.uf("ghost_" + name, *([I] * len(zs) + [B]))
+    return f(*zs)
